@@ -24,6 +24,27 @@ Qed.
 Lemma is_sp_dec n : {is_type n sServicePort = true} + {is_type n sServicePort = false}.
 Proof. destruct (is_type n sServicePort); auto. Qed.
 
+Lemma no_edge_fresh g a b : (forall e, In e (gedges g) -> edge_ends_P g e) -> has_id g b = false -> no_edge g a b = true.
+Proof.
+  intros HE Hb. unfold no_edge. apply negb_true_iff. destruct (existsb _ _) eqn:E; [|reflexivity].
+  apply existsb_exists in E as [e [He Hs]]. exfalso.
+  assert (In (a, erel e) (nbrs g b)).
+  { apply In_nbrs. exists e. split; [exact He|]. split; [reflexivity|]. unfold same_ends in Hs.
+    apply orb_true_iff in Hs as [Hs|Hs]; apply andb_true_iff in Hs as [A B]; apply str_eqb_eq in A; apply str_eqb_eq in B; auto. }
+  rewrite (nbrs_fresh_nil _ _ HE Hb) in H. destruct H.
+Qed.
+
+Lemma ao_nbrs_any ep g n a r y :
+  WFr no_exempt ep g -> owned_okR g n a r = true ->
+  nbrs (add_owned g n a r) y = nbrs g y ++ nb_of y {| ea := a; eb := nid n; erel := r |}.
+Proof.
+  intros W OK. unfold add_owned. rewrite nbrs_add_edge; [rewrite nbrs_add_node; reflexivity|].
+  rewrite no_edge_add_node. apply no_edge_fresh; [apply (r_edge_ends _ _ _ W) | apply (aw_freshR _ _ _ _ OK)].
+Qed.
+
+Lemma name_of_newR g n a r : owned_okR g n a r = true -> name_of (add_owned g n a r) (nid n) = nname n.
+Proof. intro OK. unfold name_of. rewrite (ao_find_newR g n a r OK). reflexivity. Qed.
+
 Section Peering.
 Variables (g : graph) (s i : str) (sp l : node).
 Hypothesis W : WF g.
@@ -176,33 +197,47 @@ Proof.
   apply WF_WFr. apply (WFr_discharge_ep _ _ _ pk_W4). intros n Hn _ He _ _. unfold ep in He. apply str_eqb_eq in He.
   rewrite He. rewrite pk_peers4. reflexivity.
 Qed.
+
+(* frame: what the unit leaves alone *)
+Lemma pk_cls4_old y k : y <> ps -> y <> lk -> cls_is g4 y k = cls_is g y k.
+Proof. intros H1 H2. unfold g4, g3. rewrite !le_cls. apply pk_cls2_old; assumption. Qed.
+Lemma pk_typ4_old y t : y <> ps -> y <> lk -> typ_is g4 y t = typ_is g y t.
+Proof. intros H1 H2. unfold g4, g3. rewrite !le_typ. apply pk_typ2_old; assumption. Qed.
+Lemma pk_typ4_ps t : typ_is g4 ps t = is_type sp t.
+Proof. unfold g4, g3. rewrite !le_typ. apply pk_typ2_ps. Qed.
+Lemma pk_nbrs4 y : nbrs g4 y = nbrs g y ++ nb_of y {| ea := s; eb := ps; erel := Connects |}
+                              ++ (if str_eqb lk y then [(i, Connects)] else if str_eqb i y then [(lk, Connects)] else [])
+                              ++ (if str_eqb lk y then [(ps, Connects)] else if str_eqb ps y then [(lk, Connects)] else []).
+Proof.
+  unfold g4. rewrite (le_nbrs _ _ _ _ pk_ok4). unfold g3. rewrite (le_nbrs _ _ _ _ pk_ok3). unfold g2. rewrite nbrs_add_node.
+  unfold g1. rewrite (ao_nbrs_any _ _ _ _ _ _ pk_W0 pk_ok1). rewrite <- !app_assoc. reflexivity.
+Qed.
+Lemma pk_nbrs4_other y : y <> s -> y <> ps -> y <> lk -> y <> i -> nbrs g4 y = nbrs g y.
+Proof.
+  intros H1 H2 H3 H4. rewrite pk_nbrs4. unfold nb_of. simpl.
+  assert (E1 : str_eqb s y = false) by (apply str_eqb_neq; congruence).
+  assert (E2 : str_eqb ps y = false) by (apply str_eqb_neq; congruence).
+  assert (E3 : str_eqb lk y = false) by (apply str_eqb_neq; congruence).
+  assert (E4 : str_eqb i y = false) by (apply str_eqb_neq; congruence).
+  rewrite E1, E2, E3, E4. rewrite !app_nil_r. reflexivity.
+Qed.
+Lemma pk_nbrs4_s : nbrs g4 s = nbrs g s ++ [(ps, Connects)].
+Proof.
+  destruct pk_parts as [_ [F2 [_ [_ [_ [_ [_ [_ [Cs [Ci _]]]]]]]]]].
+  rewrite pk_nbrs4. unfold nb_of. simpl. rewrite str_eqb_refl.
+  assert (E2 : str_eqb ps s = false) by (apply str_eqb_neq; intro E; apply pk_s_ne_ps; congruence).
+  assert (E3 : str_eqb lk s = false).
+  { apply str_eqb_neq. intro E. rewrite E in F2. rewrite (cls_is_has_id _ _ _ Cs) in F2. discriminate. }
+  assert (E4 : str_eqb i s = false).
+  { apply str_eqb_neq. intro E. subst s. rewrite (cls_is_unique _ _ _ KNS Ci) in Cs; discriminate. }
+  rewrite E2, E3, E4. rewrite !app_nil_r. reflexivity.
+Qed.
 End Peering.
 
 Theorem WF_add_peering g s i sp l : WF g -> peering_ok g s i sp l = true -> WF (add_peering g s i sp l).
 Proof. intros W OK. exact (WF_add_peering_sec g s i sp l W OK). Qed.
 
 (* ---- peer: two new service ports and their link ------------------------------------------------------------ *)
-Lemma no_edge_fresh g a b : (forall e, In e (gedges g) -> edge_ends_P g e) -> has_id g b = false -> no_edge g a b = true.
-Proof.
-  intros HE Hb. unfold no_edge. apply negb_true_iff. destruct (existsb _ _) eqn:E; [|reflexivity].
-  apply existsb_exists in E as [e [He Hs]]. exfalso.
-  assert (In (a, erel e) (nbrs g b)).
-  { apply In_nbrs. exists e. split; [exact He|]. split; [reflexivity|]. unfold same_ends in Hs.
-    apply orb_true_iff in Hs as [Hs|Hs]; apply andb_true_iff in Hs as [A B]; apply str_eqb_eq in A; apply str_eqb_eq in B; auto. }
-  rewrite (nbrs_fresh_nil _ _ HE Hb) in H. destruct H.
-Qed.
-
-Lemma ao_nbrs_any ep g n a r y :
-  WFr no_exempt ep g -> owned_okR g n a r = true ->
-  nbrs (add_owned g n a r) y = nbrs g y ++ nb_of y {| ea := a; eb := nid n; erel := r |}.
-Proof.
-  intros W OK. unfold add_owned. rewrite nbrs_add_edge; [rewrite nbrs_add_node; reflexivity|].
-  rewrite no_edge_add_node. apply no_edge_fresh; [apply (r_edge_ends _ _ _ W) | apply (aw_freshR _ _ _ _ OK)].
-Qed.
-
-Lemma name_of_newR g n a r : owned_okR g n a r = true -> name_of (add_owned g n a r) (nid n) = nname n.
-Proof. intro OK. unfold name_of. rewrite (ao_find_newR g n a r OK). reflexivity. Qed.
-
 Section Peering2.
 Variables (g : graph) (a b : str) (pa pb l : node).
 Hypothesis W : WF g.
